@@ -239,7 +239,7 @@ def main(argv=None) -> int:
     ap.add_argument("--list", action="store_true")
     a = ap.parse_args(argv)
     from .variants import VARIANTS
-    vs = [v for v in VARIANTS if (a.prop is None or v["prop"] == a.prop.upper()) and (a.only is None or v["id"] == a.only)]
+    vs = [v for v in VARIANTS if (a.prop is None or v["prop"] == a.prop.upper()) and (a.only is None or a.only in v["id"])]
     if a.list:
         for v in vs:
             print(v["id"], v["prop"], v["kind"], v.get("expect"), v.get("tests", "?"))
